@@ -25,11 +25,20 @@
 (*     osh, vsh output shapes ([] when the call raised)                    *)
 (*     repro    a second call with the same seed gave equal arrays         *)
 (*     stat     TRUE when os[1] "snap" lines follow                        *)
-(*  {tid, ev:"snap", i, D, n, num, cnt, unp}                               *)
+(*  {tid, ev:"snap", i, D, n, calls, num, cnt, unp, dev_e12, zex}          *)
 (*     i snapshot index (1-based), num[k] / D the input volume of grain k, *)
 (*     cnt[k] how many outputs equal input pair k of snapshot i,           *)
 (*     unp how many outputs equal no input pair of snapshot i,             *)
-(*     n the number of outputs of snapshot i.                              *)
+(*     calls how many calls (same inputs, distinct seeds) are pooled,      *)
+(*     n the number of outputs of snapshot i over all pooled calls         *)
+(*       (= calls x outputs per call; every single draw has probability    *)
+(*       f_k, so the pooled count is judged by the same binomial region),  *)
+(*     dev_e12 = max_k |volume_k - num[k]/D| in 1e-12 units, zex = "the    *)
+(*       float volume is exactly 0 iff num[k] = 0".  Volumes may sit off   *)
+(*       the rational grid by at most MaxDevE12 = 1e-8 (slow-drift class:  *)
+(*       consecutive snapshots ~1e-9 apart): the expected count then moves *)
+(*       by at most n * 1e-8 <= 0.01, i.e. |cnt D - n num| by <= 0.01 D,   *)
+(*       against the 6 D slack of the +36 D^2 term of the region.          *)
 (* One verdict line <<"REJECT", tid, line, clause, k>> per failed clause;  *)
 (* the run always continues to the end of the file (<<"DONE", lines,       *)
 (* rejected>>).  Clauses starting with "trace-" are defects of the         *)
@@ -49,6 +58,7 @@ VARIABLES l,      \* next line to consume
 tvars == <<l, cur, last, nbad>>
 
 Ev == TraceLog[l]
+MaxDevE12 == 10000
 NoCall == [tid |-> -1, N |-> 0, M |-> 0, n |-> 0, want |-> 0, seen |-> 0]
 
 SeqSum(s) == FoldSet(LAMBDA k, acc : s[k] + acc, 0, DOMAIN s)
@@ -89,8 +99,12 @@ Grains(k) == IF k = 0 THEN <<>> ELSE Grains(k - 1) \o GrainVerdict(k)
 SnapVerdicts ==
     IF cur.tid # Ev.tid \/ cur.seen >= cur.want \/ Ev.i # cur.seen + 1
         THEN <<<<"trace-snapshot-without-call", 0>>>>
-    ELSE IF Len(Ev.num) # cur.M \/ Len(Ev.cnt) # cur.M \/ Ev.n # cur.n \/ Ev.D < 1
+    ELSE IF Len(Ev.num) # cur.M \/ Len(Ev.cnt) # cur.M \/ Ev.D < 1 \/ Ev.calls < 1
         THEN <<<<"trace-snapshot-inconsistent-with-call", 0>>>>
+    ELSE IF Ev.n % Ev.calls # 0 \/ Ev.n \div Ev.calls # cur.n
+        THEN <<<<"trace-snapshot-inconsistent-with-call", 0>>>>
+    ELSE IF Ev.dev_e12 < 0 \/ Ev.dev_e12 > MaxDevE12 \/ ~Ev.zex
+        THEN <<<<"trace-volumes-off-declared-grid", 0>>>>
     ELSE IF SeqSum(Ev.num) # Ev.D \/ \E k \in 1..cur.M : Ev.num[k] < 0
         THEN <<<<"trace-volumes-not-normalised", 0>>>>
     ELSE IF Ev.unp < 0 \/ (\E k \in 1..cur.M : Ev.cnt[k] < 0) \/ SeqSum(Ev.cnt) + Ev.unp # Ev.n
